@@ -349,7 +349,18 @@ pub fn gen_source(rng: &mut Rng, w: i32, h: i32, weights: &[u32; 6]) -> SrcSpec 
             SrcKind::Sweep { stops: gen_stops(rng), spread: rng.below(3) as u8, center: p2(rng), a0: F(a0), a1: F(a0 + rng.f32_in(10., 360.)) }
         }
     };
-    SrcSpec { kind, pre: None }
+    // gradients "built directly" with a transform of their own now and then
+    let user_xf = if !matches!(kind, SrcKind::Solid { .. } | SrcKind::SolidUnpremul { .. } | SrcKind::SolidColor { .. } | SrcKind::Image { .. }) && rng.chance(1, 3) {
+        let t = match rng.below(3) {
+            0 => raqote::Transform::translation(rng.f32_in(-0.5 * e, 0.5 * e), rng.f32_in(-0.5 * e, 0.5 * e)),
+            1 => raqote::Transform::scale(rng.f32_in(0.5, 2.), rng.f32_in(0.5, 2.)),
+            _ => raqote::Transform::rotation(euclid::Angle::radians(rng.f32_in(-3., 3.))).then_translate(euclid::vec2(rng.f32_in(-3., 3.), rng.f32_in(-3., 3.))),
+        };
+        Some(mk::unmat(&t))
+    } else {
+        None
+    };
+    SrcSpec { kind, pre: None, user_xf }
 }
 
 pub const SRC_ALL: [u32; 6] = [6, 3, 1, 1, 1, 1];
@@ -520,8 +531,15 @@ impl Emit {
             Op::PushClipRect(r) => sh.brackets.push((mk::Bracket::ClipRect(*r), sh.ctm)),
             Op::PushClip(p) => sh.brackets.push((mk::Bracket::ClipPath(p.clone()), sh.ctm)),
             Op::PushLayer { .. } => sh.brackets.push((mk::Bracket::Layer, sh.ctm)),
-            Op::PopClip | Op::PopLayer => {
-                sh.brackets.pop();
+            Op::PopClip => {
+                if let Some(i) = sh.brackets.iter().rposition(|b| !matches!(b.0, mk::Bracket::Layer)) {
+                    sh.brackets.remove(i);
+                }
+            }
+            Op::PopLayer => {
+                if let Some(i) = sh.brackets.iter().rposition(|b| matches!(b.0, mk::Bracket::Layer)) {
+                    sh.brackets.remove(i);
+                }
             }
             _ => {}
         }
